@@ -155,6 +155,10 @@ def eval_expect(exp, out):
             E = g(e[1]) - g(e[2])
             if e[3]:
                 E = max(Fraction(0), E)
+        elif kk == 'sub_ceil':
+            d_ = g(e[1]) - g(e[2])
+            st_ = Fraction(e[3])
+            E = Fraction(0) if d_ <= 0 else -((-d_) // st_) * st_
         elif kk in ('mul_rate', 'mul_const'):
             E = Fraction(e[2]) * g(e[1])
         elif kk == 'min':
@@ -556,6 +560,12 @@ def k_solution_roundtrip(d):
     tmp = tempfile.mkdtemp(prefix='hvsol')
     infile = os.path.join(tmp, 'in.habutax')
     cp = configparser.ConfigParser()
+    d = dict(d)
+    d['inputs'] = dict(d['inputs'])
+    # text values with characters that are special in INI files
+    for name, text in (('1040.apartment_no', '#4'), ('1040.home_address', '12 Main St #4'), ('1040.occupation', 'Teacher ; tutor'), ('1040.city', 'St. John\'s = x: [y]')):
+        if name in d['inputs']:
+            d['inputs'][name] = text
     for name, text in d['inputs'].items():
         sec, key = name.split('.', 1)
         if not cp.has_section(sec):
@@ -568,20 +578,28 @@ def k_solution_roundtrip(d):
     with contextlib.redirect_stdout(io.StringIO()):
         habutax.solve(args)
     direct = run_solve(d['year'], d['forms'], d['inputs'])
+    # the real fill-pdfs command re-reads the solution (pdftk stubbed, filler captured)
+    captured = {}
+    cmds = []
+    old_run = pdf_filler.subprocess.run
+    pdf_filler.subprocess.run = lambda cmd, check=True: cmds.append(cmd)
+    old_fill = pdf_filler.PDFFiller.fill
+
+    def fill(self):
+        captured['filler'] = self
+        return old_fill(self)
+    pdf_filler.PDFFiller.fill = fill
+    try:
+        habutax.fill_pdfs(argparse.Namespace(solution=solfile, output=os.path.join(tmp, 'out.pdf'), flatten=True))
+    finally:
+        pdf_filler.subprocess.run = old_run
+        pdf_filler.PDFFiller.fill = old_fill
+    filler = captured['filler']
     sol = configparser.ConfigParser()
     with open(solfile) as f:
         sol.read_file(f)
     year_tag = sol.getint('habutax', 'tax_year')
-    sol.remove_section('habutax')
-    filler = pdf_filler.PDFFiller(sol, forms.available_forms[year_tag], os.path.join(tmp, 'out.pdf'))
-    cmds = []
-    import subprocess
-    old = pdf_filler.subprocess.run
-    pdf_filler.subprocess.run = lambda cmd, check=True: cmds.append(cmd)
-    try:
-        filler.fill()
-    finally:
-        pdf_filler.subprocess.run = old
+    used_year = set(type(fm).tax_year for fm in filler.forms)
     # compare typed values with what the solver held
     from habutax import solver as hsolver, inputs as hinputs
     cp2 = configparser.ConfigParser()
@@ -606,7 +624,7 @@ def k_solution_roundtrip(d):
             bad.append((k, repr(v), repr(back)))
     import shutil
     shutil.rmtree(tmp, ignore_errors=True)
-    ok = not bad and year_tag == d['year'] and n > 20
+    ok = not bad and year_tag == d['year'] and used_year == {d['year']} and n > 20
     out = {'ok': ok, 'compared': n, 'year_tag': year_tag, 'detail': repr(bad[:3]), 'inputs': d['inputs']}
     if d.get('expect'):
         out['reproduced'] = not ok
